@@ -121,6 +121,13 @@ fn main() {
         "C14" => c_import::check_c14(&ctx),
         "C15" => c_lazy::check_c15(&ctx),
         "C16" => c_vec::check_c16(&ctx),
+        "dbg-tail" => {
+            for ops in c_crash::directed_compact_tail_histories() {
+                let o = c_raw::replay_ops(&ops, (0, 0), "dbg");
+                println!("{:?} -> {:?}", ops.iter().map(|o| o.kind()).collect::<Vec<_>>().len(), o.failed_at.as_ref().map(|(i, m)| format!("{i}: {} {}", m.sig, m.what)));
+            }
+            0
+        }
         "dbg-guided" => {
             // dbg-guided <key> <X> <m2:R|W> <Y> <m4> <wclass>: thread0=W, 1=A(holds X wants Y), 2=B(holds Y wants X)
             use rawdb::verif::Mode as LM;
@@ -167,7 +174,7 @@ fn main() {
                 let b = Instant::now();
                 let r = sched::run(jobs, sched::Policy::Random { seed: k, stay: 60 }, sched::OnDeadlock::Abort, 4000);
                 tr += b.elapsed().as_secs_f64();
-                let res = check();
+                let res = check(&r.punches);
                 if k < 3 || res.is_err() { println!("run {k}: steps {} end {:?} check {:?}", r.steps.len(), matches!(r.end, sched::RunEnd::Completed), res); }
                 drop(tmp);
             }
